@@ -32,7 +32,11 @@ __CPROVER_requires(__CPROVER_is_fresh(h, sizeof(rfc1035_message)))
 __CPROVER_assigns(*off)
 __CPROVER_assigns(__CPROVER_object_upto(h, offsetof(rfc1035_message, query)))       /* header fields only: query/answer untouched */
 __CPROVER_ensures(__CPROVER_return_value == (sz < 12 ? 1 : 0))                        /* rejects exactly the short datagrams */
+#ifdef TWIN_HU
+__CPROVER_ensures(__CPROVER_return_value == 0 ==> !(*off == 12 && spec_header_matches(buf, h)))   /* TWIN: negated, must fail */
+#else
 __CPROVER_ensures(__CPROVER_return_value == 0 ==> (*off == 12 && spec_header_matches(buf, h)))
+#endif
 __CPROVER_ensures(__CPROVER_return_value != 0 ==> *off == 0)
 ;
 void h_header_unpack(void)
@@ -53,7 +57,11 @@ __CPROVER_requires(12 <= sz && sz <= N && __CPROVER_is_fresh(buf, sz))          
 __CPROVER_requires(__CPROVER_is_fresh(hdr, sizeof(rfc1035_message)))
 __CPROVER_assigns(__CPROVER_object_upto(buf, 12))
 __CPROVER_ensures(__CPROVER_return_value == 12)
+#ifdef TWIN_HP
+__CPROVER_ensures(!spec_header_matches(buf, hdr))                                    /* TWIN: negated, must fail */
+#else
 __CPROVER_ensures(spec_header_matches(buf, hdr))
+#endif
 __CPROVER_ensures((spec_be16(buf + 2) & 0x70) == 0)                                  /* RFC 1035: Z must be zero in new messages */
 ;
 void h_header_pack(void)
@@ -115,6 +123,11 @@ void h_header_roundtrip(void)
  * recursive call site (the call is replaced by this contract), and the only recursive call passes rdepth + 1, so
  * 65 - rdepth is a non-negative measure that strictly decreases: at most 66 nested calls, for any pointer graph.
  * ===================================================================================================================== */
+#ifdef TWIN_NAME
+#define NAME_TWIN(x) (!(x))     /* TWIN: negated bound, must fail */
+#else
+#define NAME_TWIN(x) (x)
+#endif
 #define NAMEUNPACK_CONTRACT \
 __CPROVER_requires(1 <= sz && sz <= N && __CPROVER_is_fresh(buf, sz)) \
 __CPROVER_requires(__CPROVER_is_fresh(off, sizeof(unsigned int))) \
@@ -126,7 +139,7 @@ __CPROVER_assigns(*off) \
 __CPROVER_assigns(rdlength != NULL: *rdlength) \
 __CPROVER_assigns(__CPROVER_object_upto(name, ns)) \
 __CPROVER_ensures(__CPROVER_return_value == 0 || __CPROVER_return_value == 1) \
-__CPROVER_ensures(__CPROVER_return_value == 0 ==> (*off <= sz && *off > __CPROVER_old(*off))) \
+__CPROVER_ensures(__CPROVER_return_value == 0 ==> (NAME_TWIN(*off <= sz) && *off > __CPROVER_old(*off))) \
 __CPROVER_ensures(rdlength != NULL ==> (*rdlength >= __CPROVER_old(*rdlength) && (size_t)(*rdlength - __CPROVER_old(*rdlength)) <= ns))
 
 /* assumed contract of memcpy (C standard: reads src[0,n), writes dst[0,n), nothing else). Its requires clause is CHECKED at
@@ -304,22 +317,25 @@ void h_message(void)
 #if defined(T_RRDESTROY)
 void h_rrdestroy(void)
 {
-    int n; unsigned cnt;
-    __CPROVER_assume(cnt >= 1 && cnt <= KD);
-    __CPROVER_assume(n >= -1 && n <= (int)cnt);
-    rfc1035_rr *rr = calloc(cnt, sizeof(*rr)); __CPROVER_assume(rr != NULL);
-    for (unsigned k = 0; k < KD; k++) {
+    int n; _Bool none;
+    __CPROVER_assume(n >= -1 && n <= KD);
+    rfc1035_rr *rr = calloc(KD, sizeof(*rr)); __CPROVER_assume(rr != NULL);
+    for (int k = 0; k < KD; k++) {
         _Bool has;
-        if (k < cnt && k < (unsigned)(n < 0 ? 0 : n) && has) { rr[k].rdata = malloc(1); __CPROVER_assume(rr[k].rdata != NULL); }
+        if (!none && k < n && has) { rr[k].rdata = malloc(1); __CPROVER_assume(rr[k].rdata != NULL); }
     }
-    _Bool none;
+    _Bool first = rr[0].rdata != NULL;
     rfc1035_rr *p = none ? NULL : rr;
     rfc1035RRDestroy(&p, n);
+#ifdef TWIN_RRD
+    __CPROVER_assert(p != NULL, "ensures: TWIN (negated) *rr cleared");
+#else
     __CPROVER_assert(p == NULL, "ensures: *rr cleared");
+#endif
     if (none) free(rr);
     /* --memory-leak-check: every rdata block and the array were freed exactly once (double free = free precondition) */
 #ifdef REACH
-    __CPROVER_assert(!(n == KD && rr[0].rdata != NULL), "reach: full array with rdata");
+    __CPROVER_assert(!(n == KD && first), "reach: full array with rdata");
     __CPROVER_assert(!(none), "reach: NULL array");
 #endif
 }
